@@ -91,9 +91,10 @@ theorem destructed_never_visible {c : Core} (h : WorldInv c) {i : Nat} (hd : (c.
 /-- **destructed_never_called.**  apply() on a destructed object (create / init / move_or_destruct hooks, and every
     hook call of the fan-out and of the move_or_destruct loop) does nothing at all. -/
 theorem destructed_never_called (sc : Scripts) (f : Nat) (x : Nat) (k : Hook) (arg : Option Nat) (w : World)
-    (hd : (w.c.objs x).destructed = true) (hf : (w.c.objs x).freed = false) :
+    (hx : x < w.c.n) (hd : (w.c.objs x).destructed = true) (hf : (w.c.objs x).freed = false) :
     (exec sc (f + 1) (.hook x k arg) w).w = w ∧ (exec sc (f + 1) (.hook x k arg) w).out = .ok := by
-  simp [exec, hd, hf]
+  have : ¬ (w.c.n ≤ x) := by omega
+  simp [exec, hd, hf, this]
 
 /-- **destructed_never_moved_into.**  move_object into a destructed object, or of a destructed object, never succeeds
     and changes nothing in the structures. -/
@@ -247,6 +248,7 @@ example (cmds : List Cmd) :
     WorldInv (runCmds (fun i k _ => match k with
       | .create => [.cl (.bp 0)]
       | .init => [.de i]
-      | .mod => [.mvarg]) World.init cmds).c := reachable_inv _ cmds
+      | .mod => [.mvarg]
+      | .act => [.de i]) World.init cmds).c := reachable_inv _ cmds
 
 end NV.C08
